@@ -1,5 +1,6 @@
 From Coq Require Import Extraction ExtrOcamlBasic.
 From Common Require Import Conv.
-From C08 Require Import Model ModelCD.
+From C08 Require Import Model ModelCD ModelLL.
 Extraction "c08_model.ml" conv_anchor M_cov_read M_cov_encode M_cov_encode_len
-  M_cd_append M_cd_append_len M_cd_read.
+  M_cd_append M_cd_append_len M_cd_read
+  M_ll_encode M_ll_read M_find_ext.
